@@ -112,6 +112,48 @@ Section DapSpec.
         end
     end.
 
+  (* --- breakpoints replaced at any time, also during a free run: the monitor with an exemption for the instruction in
+     flight.  S_set_bps (which sends the response) while the machine thread is past its breakpoint check (MChecked) exempts
+     that one pending M_execute: it was checked against the list in force before the response.  Every later instruction
+     is checked against the new list. *)
+  Fixpoint bp_ok_live (p : protocol) (tr : list action) (s : st) (seen exempt : bool) : bool :=
+    match tr with
+    | [] => true
+    | a :: tr' =>
+        match step_act cpu pc step fin step_over step_out reset_lcp p a s with
+        | None => true
+        | Some (s', _) =>
+            let violated := match a with
+                            | M_execute => negb (fin (cp s)) && hit (bps s) (pc (cp s)) && negb seen && negb exempt
+                            | _ => false
+                            end in
+            let seen' := if changes_cpu a s then false
+                         else if publishes_here p a s s' then true else seen in
+            let exempt' := match a with
+                           | M_execute => false
+                           | S_set_bps => exempt || match ml s with MChecked => true | _ => false end
+                           | _ => exempt
+                           end in
+            negb violated && bp_ok_live p tr' s' seen' exempt'
+        end
+    end.
+
+  (* the only client discipline left: step commands are sent while the published state is Stopped *)
+  Fixpoint steps_when_stopped (p : protocol) (tr : list action) (s : st) : bool :=
+    match tr with
+    | [] => true
+    | a :: tr' =>
+        match step_act cpu pc step fin step_over step_out reset_lcp p a s with
+        | None => true
+        | Some (s', _) =>
+            match a with
+            | S_req (RStep _) =>
+                match rs s with Stopped _ => steps_when_stopped p tr' s' | _ => false end
+            | _ => steps_when_stopped p tr' s'
+            end
+        end
+    end.
+
   (* the instruction the CPU is about to execute jumps to itself (a `jmp *` loop): class of the known finding *)
   Definition Known_breakpoint_self_loop (c : cpu) : bool := pc (step c) =? pc c.
 
